@@ -28,16 +28,23 @@ var (
 	files    = map[int]map[string][]byte{} // plain files per node (persist-file API)
 )
 
-// Reset forgets every disk (start of a run).
-func Reset() {
+// CloseAll closes every open DB (end of a run, inside the run's bubble).
+func CloseAll() {
 	mu.Lock()
 	for _, m := range disks {
 		for _, d := range m {
 			if d.db != nil {
 				d.db.Close()
+				d.db = nil
 			}
 		}
 	}
+	mu.Unlock()
+}
+
+// Reset forgets every disk (start of a run). Objects of an earlier bubble are never touched.
+func Reset() {
+	mu.Lock()
 	disks = map[int]map[string]*disk{}
 	failOpen = map[int]bool{}
 	files = map[int]map[string][]byte{}
